@@ -164,7 +164,8 @@ theorem sem_exec_chmod {c : Ctx} {q name : List Nat} {pr : Proc} (hS : Sem c q p
     · rename_i fs' he
       refine sem_chmodH hS ?_ he
       obtain ⟨tT, hT, hTd⟩ := hS.inv.tdir
-      unfold lookupFollow at hl
+      replace hl := (lookupFollow_ok hl).1
+      unfold lookupFollow0 at hl
       simp only [hn.ne_nil, if_false, isAbs_good hn, Bool.false_eq_true, hS.inv.cwd] at hl
       split at hl
       · simp at hl
@@ -196,7 +197,8 @@ theorem sem_exec_chmod_dot {c : Ctx} {q : List Nat} {pr : Proc} (hS : Sem c q pr
     · rename_i fs' he
       refine sem_chmodH hS ?_ he
       obtain ⟨tT, hT, hTd⟩ := hS.inv.tdir
-      unfold lookupFollow at hl
+      replace hl := (lookupFollow_ok hl).1
+      unfold lookupFollow0 at hl
       have e : compsOf [DOT] = [DOTN] := by decide
       simp only [show ([DOT] : List Nat) ≠ [] by decide, if_false, show isAbs [DOT] = false by decide,
         Bool.false_eq_true, hS.inv.cwd, e] at hl
@@ -313,7 +315,8 @@ theorem lookup_raw_inside {c : Ctx} {q old lc : List Nat} {pr : Proc} (hS : Sem 
   · -- the path named an object by ".", ".." or a trailing '/': that is a directory
     rename_i pos' hl
     exfalso
-    unfold locate at hl
+    replace hl := (locate_ok hl).1
+    unfold locate0 at hl
     simp only [hne, if_false, habs, Bool.false_eq_true, hS.inv.cwd] at hl
     split at hl
     · simp only [Except.ok.injEq, Loc.obj.injEq] at hl
@@ -339,7 +342,8 @@ theorem lookup_raw_inside {c : Ctx} {q old lc : List Nat} {pr : Proc} (hS : Sem 
           · simp at hl
           · simp at hl
   · rename_i d n hl
-    unfold locate at hl
+    replace hl := (locate_ok hl).1
+    unfold locate0 at hl
     simp only [hne, if_false, habs, Bool.false_eq_true, hS.inv.cwd] at hl
     split at hl
     · simp at hl
